@@ -177,7 +177,8 @@ Facets(b, P) ==
     [] b.k = "trc" ->
          LET q == Q2(P, V3(p,1))  h == V3(p,4)  r0 == p[7]  r1 == p[8]  c == Cross(q, h)  hh == Dot(h,h)
              rad == 2*r0*hh + (r1 - r0)*Dot(q,h)         \* 2 hh * radius at the height of P
-         IN << IF rad > 0 THEN Dot(c,c)*hh - rad*rad ELSE 1, Dot(q,h) - 2*hh, -Dot(q,h) >>
+         (* facet 1 alone is the whole (two-sheet) conical surface, as for a K card without selector *)
+         IN << Dot(c,c)*hh - rad*rad, Dot(q,h) - 2*hh, -Dot(q,h) >>
     [] b.k = "ell" /\ p[7] < 0 ->
          (* centre, major semi-axis vector a, minor radius r = -p[7] *)
          LET q == Q2(P, V3(p,1))  a == V3(p,4)  r == -p[7]  aa == Dot(a,a)  qa == Dot(q,a)
